@@ -121,7 +121,7 @@ static int cmd_vss(char** tok, int nt)
         else { c.path.vss_interop_path.path_length = (uint16_t)arglen; c.path.vss_interop_path.path = (char*)ext_source(arg_b, arglen); }
     } else if (!strcmp(c.op, "putdata")) {
         to_host(arg_b, host_b, arglen, es);
-        if (is_var(c.dt) || c.dt > 11) { c.arr.data_length = (uint16_t)arglen; c.arr.data = ext_source(host_b, arglen); c.data.data_string = (VssDataString_t*)&c.arr; }
+        if (is_var(c.dt) || c.dt > 11) { c.arr.data_length = (uint16_t)arglen; c.arr.data = ext_source_typed(host_b, arglen, (size_t)es); c.data.data_string = (VssDataString_t*)&c.arr; }
         else memcpy(&c.data, host_b, es);          /* scalar members all start at offset 0 of the union */
     } else if (!strcmp(c.op, "getpath")) {
         if (c.mode != 1) { dest = ext_dest(0, cap, 0xCD); c.path.vss_interop_path.path = (char*)dest; c.path.vss_interop_path.path_length = 0xBEEF; }
